@@ -74,7 +74,7 @@ ApplyRegions == \E S \in SUBSET (1..(IF stage = "f" THEN Cardinality(Occ(f.t)) E
     /\ stage = "f" /\ MODE = "regions"
     /\ Cardinality(S) <= NG                       \* NG = maximal number of skip positions in this mode
     /\ op' = "regions" /\ h' = f.t /\ sched' = SchedOf(Cardinality(Occ(f.t)), S)
-    /\ stage' = "done" /\ UNCHANGED <<f, g, aff>>
+    /\ stage' = "done" /\ UNCHANGED <<f, g, aff, hist>>
 
 \* C11: LP faults as environment actions: any set of at most NG faulty LP calls (position x kind) during the elimination
 SortedPlan(plan) == LET ks == SortedSeq({pr[1] : pr \in plan}) IN [j \in 1..Len(ks) |-> <<ks[j], FaultAt(plan, ks[j])>>]
